@@ -66,10 +66,11 @@ impl Elem for E2 {
     const NAME: &'static str = "u16";
     const TAG: u8 = 9;
     fn make(i: u32) -> Self {
-        E2(0x4100 + i as u16)
+        assert!(i < 0x4000);
+        E2(0x4000 | i as u16)
     }
     fn look(&self) -> (bool, u32, u32) {
-        (self.0 & 0xff00 == 0x4100, self.0 as u32, (self.0 & 0xff) as u32)
+        (self.0 & 0xc000 == 0x4000, self.0 as u32, (self.0 & 0x3fff) as u32)
     }
 }
 impl Drop for E2 {
@@ -232,5 +233,22 @@ impl<T> ExactSizeIterator for Script<T> {
     fn len(&self) -> usize {
         self.tick();
         self.reported()
+    }
+}
+
+/// a big sized value (N bytes of padding) with a tracked destructor
+pub struct EBig<const N: usize> {
+    pub t: Tracked<14>,
+    pub pad: [u8; N],
+}
+impl<const N: usize> Elem for EBig<N> {
+    const NAME: &'static str = "tracked+padding";
+    const TAG: u8 = 14;
+    fn make(i: u32) -> Self {
+        EBig { t: Tracked::new(i), pad: [0x5a; N] }
+    }
+    fn look(&self) -> (bool, u32, u32) {
+        let p = self.t.peek();
+        (p.intact() && self.pad[0] == 0x5a && self.pad[N - 1] == 0x5a && self.pad[N / 2] == 0x5a, p.id, p.val)
     }
 }
